@@ -45,11 +45,12 @@ pub enum Mut {
     Append(Bytes),
     /// text formats: operate on one separated field of one line. op: 0 empty it, 1 delete it (with a separator),
     /// 2 duplicate it, 3..=6 replace it by "0" / "-1" / "99999999999999999999" / "x", 7 delete the line,
-    /// 8 duplicate the line, 9 empty the line
+    /// 8 duplicate the line, 9 empty the line, 10 / 11 append "/" / ".http" to the field, 12 prepend "/",
+    /// 13 replace every '/' of the field by "/../"
     Text { line: u16, col: u16, sep: u8, op: u8 },
 }
 
-pub const TEXT_OPS: u8 = 10;
+pub const TEXT_OPS: u8 = 14;
 
 /// U+0130 (2 bytes, lower case 3), U+212A Kelvin sign (3 bytes, lower case 1), U+023A (2 -> 3), sharp s (upper case "SS"),
 /// U+FB01 ligature (upper case "FI"), U+0149 (upper case 2 characters), U+1E9E capital sharp s (3 bytes, lower case 2)
@@ -92,6 +93,13 @@ fn text_edit(b: &mut Vec<u8>, line: usize, col: usize, sep: u8, op: u8) {
                 3 => cols[col] = b"0".to_vec(),
                 4 => cols[col] = b"-1".to_vec(),
                 5 => cols[col] = b"99999999999999999999".to_vec(),
+                10 => cols[col].push(b'/'),
+                11 => cols[col].extend_from_slice(b".http"),
+                12 => cols[col].insert(0, b'/'),
+                13 => {
+                    let parts: Vec<Vec<u8>> = cols[col].split(|c| *c == b'/').map(|c| c.to_vec()).collect();
+                    cols[col] = parts.join(&b"/../"[..]);
+                }
                 _ => cols[col] = b"x".to_vec(),
             }
             let mut nl = cols.join(&sep);
